@@ -12,6 +12,8 @@ def main():
     seed = int(os.environ.get("VERIF_SEED", "1"))
     if tier == "thorough":
         os.environ.setdefault("VERIF_XCHECK", "1")
+    # one work directory per check and tier: checks may run side by side (C12/C13 reuse other checks' harness builds)
+    os.environ.setdefault("VERIF_RUN_ID", "%s_%s" % (pid, "replay" if tier == "--replay" else tier))
     mod = importlib.import_module("checks." + pid.lower())
     if len(sys.argv) > 3 and sys.argv[2] == "--replay":
         sys.exit(mod.replay(sys.argv[3]))
